@@ -172,24 +172,18 @@ Record state := mkstate {
   rep_times : list (option Qc);            (* self._repetition_times *)
   ref_input : option file;                 (* self._ref_input *)
   shape_dirty : bool;                      (* self._shape_dirty *)
-  cached_shape : option (list nat);        (* self._shape *)
-  aff_edits : list (nat * (nat * nat))     (* in-place edits of the per-file affines made by get_affine:
-                                              file id |-> (a, b): slice column := ipp(b) - ipp(a) *)
+  cached_shape : option (list nat)         (* self._shape *)
 }.
 
 Definition init (time_order vector_order : bool) : state :=
-  mkstate time_order vector_order [] [] [] [] [] [] [] None true None [].
+  mkstate time_order vector_order [] [] [] [] [] [] [] None true None.
 
 Definition with_files (st : state) (fi : list entry) : state :=
   mkstate (cfg_time st) (cfg_vec st) fi (pos_vals st) (time_vals st) (vec_vals st) (tuples st)
-          (pe_dirs st) (rep_times st) (ref_input st) (shape_dirty st) (cached_shape st) (aff_edits st).
+          (pe_dirs st) (rep_times st) (ref_input st) (shape_dirty st) (cached_shape st).
 Definition with_shape (st : state) (dirty : bool) (sh : option (list nat)) : state :=
   mkstate (cfg_time st) (cfg_vec st) (files_info st) (pos_vals st) (time_vals st) (vec_vals st) (tuples st)
-          (pe_dirs st) (rep_times st) (ref_input st) dirty sh (aff_edits st).
-Definition with_edits (st : state) (ed : list (nat * (nat * nat))) : state :=
-  mkstate (cfg_time st) (cfg_vec st) (files_info st) (pos_vals st) (time_vals st) (vec_vals st) (tuples st)
-          (pe_dirs st) (rep_times st) (ref_input st) (shape_dirty st) (cached_shape st) ed.
-
+          (pe_dirs st) (rep_times st) (ref_input st) dirty sh.
 Definition ostr_eqb (a b : option str) : bool :=
   match a, b with
   | None, None => true
@@ -231,7 +225,7 @@ Definition add_dcm (st : state) (f : file) : res state :=
         (set_add ostr_eqb (f_phase f) (pe_dirs st))
         (set_add oq_eqb (f_tr f) (rep_times st))
         (match ref_input st with None => Some f | r => r end)
-        true (cached_shape st) (aff_edits st)).
+        true (cached_shape st)).
 
 (** ** _chk_order (dcmstack.py 585-621) *)
 
@@ -385,16 +379,9 @@ Definition get_data (st : state) : state * res (list nat * list nat) :=
   | Ok sh => (st1, Ok (ids (files_info st1), sh))
   end.
 
-Fixpoint edit_get (ed : list (nat * (nat * nat))) (i : nat) : option (nat * nat) :=
-  match ed with
-  | [] => None
-  | (j, c) :: r => if Nat.eqb i j then Some c else edit_get r i
-  end.
-Definition edit_set (ed : list (nat * (nat * nat))) (i : nat) (c : nat * nat) :=
-  (i, c) :: filter (fun jc => negb (Nat.eqb i (fst jc))) ed.
-
-(** result: id of the file whose affine is returned, and its slice column:
-    [Some (a, b)] = ipp(b) - ipp(a), [None] = the column the DicomWrapper gave that file *)
+(** result: id of the file whose affine is COPIED (fix 9c7aa81: the file's own array is no longer edited), and
+    the slice column of the copy: [Some (a, b)] = ipp(b) - ipp(a) when there are several files per volume,
+    [None] = the column the DicomWrapper gave that file *)
 Definition get_affine (st : state) : state * res (nat * option (nat * nat)) :=
   let '(st1, r) := get_shape st in
   match r with
@@ -403,10 +390,8 @@ Definition get_affine (st : state) : state * res (nat * option (nat * nat)) :=
       let fi := files_info st1 in
       let fpv := length fi / nvols_of_shape sh in
       let i0 := f_id (e_file (nth 0 fi dflt_entry)) in
-      if 1 <? fpv then
-        let i1 := f_id (e_file (nth 1 fi dflt_entry)) in
-        (with_edits st1 (edit_set (aff_edits st1) i0 (i0, i1)), Ok (i0, Some (i0, i1)))
-      else (st1, Ok (i0, edit_get (aff_edits st1) i0))
+      let i1 := f_id (e_file (nth 1 fi dflt_entry)) in
+      (st1, Ok (i0, if 1 <? fpv then Some (i0, i1) else None))
   end.
 
 (** ** to_nifti (dcmstack.py 837-997) *)
